@@ -355,3 +355,162 @@ c12_hdr!(c12_hdr_n3_b3, 3, 3, 6);
 c12_hdr!(c12_hdr_n4_b2, 4, 2, 7);
 c12_hdr!(c12_hdr_n4_b3, 4, 3, 7);
 c12_hdr!(c12_hdr_n5_b3, 5, 3, 8);
+
+// ---------------------------------------------------------------------------
+// C02: kind dispatch, debug-id precedence, index sections (RawSourceMap values built
+// here, i.e. what serde_json hands to decode_common).
+use crate::jsontypes::{RawSection, RawSectionOffset};
+use debugid::DebugId;
+
+fn empty_rsm() -> RawSourceMap {
+    RawSourceMap {
+        version: Some(3),
+        file: None,
+        sources: None,
+        source_root: None,
+        sources_content: None,
+        sections: None,
+        names: None,
+        range_mappings: None,
+        mappings: None,
+        ignore_list: None,
+        x_facebook_offsets: None,
+        x_metro_module_paths: None,
+        x_facebook_sources: None,
+        debug_id: None,
+        _debug_id_new: None,
+    }
+}
+
+fn did(tag: u8) -> DebugId {
+    // DebugId is a 32-byte repr(C, packed) value; byte 0 is the first UUID byte
+    let mut raw = [0u8; 32];
+    raw[0] = tag;
+    unsafe { std::mem::transmute::<[u8; 32], DebugId>(raw) }
+}
+
+// one harness per (concrete) combination of the two keys: symbolic presence would make
+// CBMC explore the recursive drop glue of RawSourceMap -> RawSection -> Box<RawSourceMap>
+fn c02_dispatch_body(has_sections: bool, has_fb: bool) {
+    let mut rsm = empty_rsm();
+    if has_sections {
+        rsm.sections = Some(Vec::new());
+    }
+    if has_fb {
+        rsm.x_facebook_sources = Some(Vec::new());
+    }
+    let r = decode_common(rsm);
+    assert!(r.is_ok(), "C02/empty-document-decodes");
+    if let Ok(ref m) = r {
+        let kind = match m {
+            DecodedMap::Regular(_) => 0,
+            DecodedMap::Index(_) => 1,
+            DecodedMap::Hermes(_) => 2,
+        };
+        let want = if has_sections { 1 } else if has_fb { 2 } else { 0 };
+        assert!(kind == want, "C02/kind-dispatch-sections-then-facebook-sources-then-regular");
+    }
+    forget(r);
+}
+
+#[kani::proof]
+#[kani::unwind(4)]
+fn c02_dispatch_regular() {
+    c02_dispatch_body(false, false)
+}
+
+#[kani::proof]
+#[kani::unwind(4)]
+fn c02_dispatch_index() {
+    c02_dispatch_body(true, false)
+}
+
+#[kani::proof]
+#[kani::unwind(4)]
+fn c02_dispatch_hermes() {
+    c02_dispatch_body(false, true)
+}
+
+#[kani::proof]
+#[kani::unwind(4)]
+fn c02_dispatch_both() {
+    c02_dispatch_body(true, true)
+}
+
+#[kani::proof]
+#[kani::unwind(34)]
+fn c02_debugid() {
+    let mut rsm = empty_rsm();
+    let a: bool = kani::any();
+    let b: bool = kani::any();
+    let ta: u8 = kani::any();
+    let tb: u8 = kani::any();
+    if a {
+        rsm.debug_id = Some(did(ta));
+    }
+    if b {
+        rsm._debug_id_new = Some(did(tb));
+    }
+    let r = decode_regular(rsm);
+    assert!(r.is_ok(), "C02/empty-document-decodes");
+    if let Ok(ref sm) = r {
+        let got = sm.get_debug_id();
+        let want = if a { Some(did(ta)) } else if b { Some(did(tb)) } else { None };
+        assert!(got == want, "C02/debug_id-wins-over-debugId");
+        kani::cover!(a && b && ta != tb, "both keys present and different");
+        kani::cover!(!a && b, "only debugId");
+    }
+    forget(r);
+}
+
+// ---------------------------------------------------------------------------
+// C07 (thorough): decode_rmi places bit k of base64 digit j at flag index 6*j + k
+// (little-endian within the digit, per the range-mappings proposal); foreign
+// characters are refused.
+fn c07_rmi_decode_body<const N: usize>() {
+    let t: [u8; N] = kani::any();
+    let mut i = 0;
+    while i < N {
+        kani::assume(t[i] < 0x80);
+        i += 1;
+    }
+    let mut bv: BitVec<u8, Lsb0> = BitVec::new();
+    let r = decode_rmi(as_str(&t), &mut bv);
+    let mut foreign = false;
+    let mut i = 0;
+    while i < N {
+        if crate::vlq::verif_h::ref_b64(t[i]) < 0 {
+            foreign = true;
+        }
+        i += 1;
+    }
+    assert!(r.is_ok() == !foreign, "C07/rmi-decode-accepts-exactly-base64");
+    if r.is_ok() {
+        assert!(bv.len() == 6 * N, "C07/rmi-decode-six-flags-per-digit");
+        let mut k = 0;
+        while k < 6 * N {
+            let d = crate::vlq::verif_h::ref_b64(t[k / 6]);
+            let want = (d >> (k % 6)) & 1 == 1;
+            let got = bv.get(k).map(|b| *b).unwrap_or(false);
+            assert!(got == want, "C07/rmi-decode-bit-layout");
+            k += 1;
+        }
+        assert!(bv.get(6 * N).is_none(), "C07/rmi-decode-no-flag-past-the-digits");
+    }
+    kani::cover!(r.is_ok() && bv.get(5).map(|b| *b).unwrap_or(false), "bit 5 of the first digit set");
+    kani::cover!(foreign, "foreign character");
+    forget(r);
+    forget(bv);
+}
+
+#[kani::proof]
+#[kani::unwind(9)]
+fn c07_rmi_decode_len1() {
+    c07_rmi_decode_body::<1>()
+}
+
+#[kani::proof]
+#[kani::unwind(15)]
+fn c07_rmi_decode_len2() {
+    c07_rmi_decode_body::<2>()
+}
